@@ -231,6 +231,31 @@ def mc(module, cfg, workers=16, timeout=1700, xmx="16g", coverage=False):
     return dict(module=module, cfg=cfg, states=r["distinct"], transitions=r["generated"])
 
 
+def apalache_inductive(module, init, inv, nxt, cinit, timeout=900):
+    """Apalache: Init => Inv (length 0) and Inv /\\ Next => Inv' (length 1) for the constants fixed by cinit.
+    A failure is a defect of the specification (exit 2), never a code violation."""
+    wd = run_dir("apalache-" + module)
+    for f in os.listdir(SPEC):
+        if f.endswith(".tla"):
+            shutil.copy(os.path.join(SPEC, f), wd)
+    t0 = time.time()
+    try:
+        for (i, length) in ((init, 0), (inv, 1)):
+            cmd = ["apalache-mc", "check", "--cinit=" + cinit, "--init=" + i, "--inv=" + inv, "--next=" + nxt, "--length=%d" % length,
+                   "--out-dir=" + os.path.join(wd, "out"), module + ".tla"]
+            try:
+                p = subprocess.run(cmd, cwd=wd, capture_output=True, text=True, timeout=timeout)
+            except subprocess.TimeoutExpired:
+                raise Machinery("apalache %s timed out" % module)
+            if "The outcome is: NoError" not in p.stdout:
+                raise Machinery("apalache %s (%s, length %d) failed:\n%s" % (module, i, length, p.stdout[-2500:]))
+    finally:
+        shutil.rmtree(wd, ignore_errors=True)
+    log("[apalache] %s: %s inductive for %s (%.1fs)" % (module, inv, cinit, time.time() - t0))
+    return dict(module=module, cfg="apalache --cinit=%s: %s => %s; %s /\\ %s => %s'" % (cinit, init, inv, inv, nxt, inv), states=1, transitions=1,
+                tool="apalache 0.58.0 (symbolic, inductive invariant)")
+
+
 def gen_export(module, cfg, name):
     """gen step: TLC evaluates the specification's tables and writes them as JSON."""
     out = os.path.join(WORK, "%s-%d.json" % (name, os.getpid()))
